@@ -130,7 +130,7 @@ theorem execQueue_length (conn : Nat) (q : List Queued) :
         simp only [List.length_cons]; omega
       | some cmd =>
         simp only [hp] at hnc ⊢
-        cases hcr : (runCmd { c with now := c.now + 1000, impl := impls.head? } s conn x.dbRef true cmd).crash with
+        cases hcr : (runCmd { c with now := c.now + 1000, impl := impls.head? } s conn (x.ref c.q (s.session conn).dbRef) true cmd).crash with
         | some site => simp [hcr] at hnc
         | none =>
           simp only [hcr] at hnc ⊢
@@ -165,7 +165,7 @@ theorem execQueue_is_history (conn : Nat) (q : List Queued) :
           have hw := parseCmdQ_wf c.q name args cmd hp
           dsimp only
           split
-          · refine ⟨[⟨{ c with now := c.now + 1000, impl := impls.head? }, conn, x.dbRef, true, cmd⟩], ?_, ?_, ?_⟩
+          · refine ⟨[⟨{ c with now := c.now + 1000, impl := impls.head? }, conn, x.ref c.q (s.session conn).dbRef, true, cmd⟩], ?_, ?_, ?_⟩
             · simp [runEvents]
             · intro e he
               simp only [List.mem_singleton] at he
@@ -173,12 +173,12 @@ theorem execQueue_is_history (conn : Nat) (q : List Queued) :
               exact ⟨rfl, hw, rfl, rfl⟩
             · exact ⟨(by show c.now ≤ c.now + 1000; omega), trivial⟩
           · obtain ⟨evs, h1, h2, h3⟩ := ih { c with now := c.now + 1000, impl := impls.head? } impls.tail
-              (runCmd { c with now := c.now + 1000, impl := impls.head? } s conn x.dbRef true cmd).st
-              (downIf ((runCmd { c with now := c.now + 1000, impl := impls.head? } s conn x.dbRef true cmd).st.session conn).resp
+              (runCmd { c with now := c.now + 1000, impl := impls.head? } s conn (x.ref c.q (s.session conn).dbRef) true cmd).st
+              (downIf ((runCmd { c with now := c.now + 1000, impl := impls.head? } s conn (x.ref c.q (s.session conn).dbRef) true cmd).st.session conn).resp
                   { c with now := c.now + 1000, impl := impls.head? }
-                  (runCmd { c with now := c.now + 1000, impl := impls.head? } s conn x.dbRef true cmd).reply :: vs)
+                  (runCmd { c with now := c.now + 1000, impl := impls.head? } s conn (x.ref c.q (s.session conn).dbRef) true cmd).reply :: vs)
               _ _
-            refine ⟨⟨{ c with now := c.now + 1000, impl := impls.head? }, conn, x.dbRef, true, cmd⟩ :: evs, ?_, ?_, ?_⟩
+            refine ⟨⟨{ c with now := c.now + 1000, impl := impls.head? }, conn, x.ref c.q (s.session conn).dbRef, true, cmd⟩ :: evs, ?_, ?_, ?_⟩
             · simp only [runEvents]; exact h1
             · intro e he
               rcases List.mem_cons.mp he with e1 | e1
